@@ -161,6 +161,16 @@ CHARTS = {
     "noteless": mk(res=4, sync=SYNC, events=EVENTS, tracks=[("HardDrums", ["3 = S 2 4", "5 = E solo"]), ("ExpertSingle", ["1 = N 0 0", "2 = N 1 0"])]),
     # accepted although its lines are not in tick order (every out-of-order tick stays in the current tempo region)
     "unsorted": mk(res=4, sync=["0 = TS 4", "0 = B 120000", "10 = B 60000", "25 = TS 3", "12 = TS 5"], events=['11 = E "section b"', '4 = E "lyric x"', '30 = E "lyric z"', '12 = E "lyric y"', '20 = E "t"', '11 = E "u"'], tracks=[("ExpertSingle", ["0 = N 0 0", "30 = N 1 2", "12 = N 2 0", "20 = N 3 1", "20 = S 2 5", "11 = S 2 1", "28 = E b", "13 = E a"]), ("HardDrums", ["14 = N 1 0", "11 = N 2 0"])]),
+    # scale: every container is long (thresholds such as ">= 512 notes" are invisible on small charts); depth 1 only
+    "big": mk(
+        res=4,
+        sync=["0 = TS 4"] + ["%d = B %d" % (30 * i, 60000 + 997 * i) for i in range(70)] + ["%d = TS %d" % (16 * i, 2 + i % 5) for i in range(1, 40)],
+        events=['%d = E "lyric w%d"' % (3 * i, i) for i in range(600)] + ['%d = E "section s%d"' % (40 * i, i) for i in range(40)],
+        tracks=[
+            ("ExpertSingle", [ln for i in range(600) for ln in (["%d = N %d %d" % (2 * i, i % 5, i % 3)] + (["%d = S 2 9" % (2 * i)] if i % 15 == 0 else []))]),
+            ("HardDrums", ["%d = N %d 0" % (3 * i + 1, (i * 2) % 5) for i in range(530)] + ["%d = E e%d" % (7 * i, i) for i in range(100)]),
+        ],
+    ),
     "star-power": mk(res=4, sync=SYNC, events=EVENTS, tracks={"ExpertSingle": ["0 = S 2 4", "0 = N 0 0", "3 = N 1 2", "4 = N 2 0", "8 = S 2 0", "8 = N 3 0", "9 = S 2 9", "10 = N 0 0", "10 = N 6 0"]}),
 }
 
@@ -207,7 +217,10 @@ def plan(tier, seed):
     D = 2 if tier == "quick" else 3
     shards = []
     for cname in CHARTS:
-        if D == 2:
+        if cname == "big":
+            for lo in range(0, len(OPNAMES), 4):
+                shards.append((cname, 1, lo, min(len(OPNAMES), lo + 4)))
+        elif D == 2:
             for lo in range(0, len(OPNAMES), 8):
                 shards.append((cname, D, lo, min(len(OPNAMES), lo + 8)))
         else:
